@@ -495,4 +495,30 @@ theorem map_perm_coherent {α γ : Type} (f : List α → γ) (p : Idx α) (hwf 
   obtain ⟨l, h⟩ := perm_unfoldsB p hwf
   exact ⟨l, map_coherent perm_peekNext f h⟩
 
+/-- **Permutations, every derived position**: `s drop k` has `len = len s - k` -/
+theorem perm_drop_len {α : Type} (p : Idx α) (hwf : PermT.WF p)
+    (hn : ∀ v, p.idx = some v → v.length ≤ 20) (l : List (List α)) (h : Coherent Perm.ops p l) (k : Nat) :
+    Coherent Perm.ops (dropN Perm.next k p) (l.drop k) ∧
+      Perm.ops.len (dropN Perm.next k p) = .ok (some (l.length - k)) := by
+  refine coherent_drop_of_family (o := Perm.ops)
+    (fun p => PermT.WF p ∧ ∀ v, p.idx = some v → v.length ≤ 20) ?_ ?_ ⟨hwf, hn⟩ h k
+  · intro s v s' hs hnx
+    refine ⟨PermT.wf_next perm_step s v s' hs.1 hnx, ?_⟩
+    obtain ⟨base, idx⟩ := s
+    cases idx with
+    | none =>
+      have : Perm.next ⟨base, none⟩ = some (v, s') := hnx
+      simp [Perm.next] at this
+    | some w =>
+      have hnx' : Perm.next ⟨base, some w⟩ = some (v, s') := hnx
+      simp only [Perm.next, Option.some.injEq, Prod.mk.injEq] at hnx'
+      obtain ⟨_, rfl⟩ := hnx'
+      intro v' hv'
+      simp only at hv'
+      rw [((perm_step w (hs.1 w rfl)).1 v' hv').2.2]
+      exact hs.2 w rfl
+  · intro s hs
+    obtain ⟨l', h', _⟩ := perm_coherent s hs.1 hs.2
+    exact ⟨l', h'⟩
+
 end Noulith.C11
